@@ -268,3 +268,48 @@ def rule_operand_values(db: ProgramDB) -> List[Instance]:
                         ("" if ok else ": the value compared for an operand must be that operand's own entry "
                                        "(<binding>[<operand>._id_])"), line=getattr(k, "lineno", 0)))
     return out
+
+
+def rule_operand_in_row(db: ProgramDB) -> List[Instance]:
+    """The row a comparator emits maps each operand's id to the value that was actually compared: after the operands'
+    bindings are merged, the mapping handed to apply_operation is written over the row (an operand such as concatenate
+    re-binds other variables in its own row, which must not replace the compared values)."""
+    m = db.method("Comparator", "_evaluate__")
+    out = []
+    calls = [c for c in own_calls(m) if call_attr(c) == "apply_operation"]
+    if len(calls) != 1 or not isinstance(calls[0].args[0], ast.Name):
+        raise AnalysisError("apply_operation is not called once with a named mapping")
+    mapname = calls[0].args[0].id
+    ys = [y for y in own_nodes(m.node) if isinstance(y, ast.Yield) and isinstance(y.value, ast.Name)]
+    cfg_y = []
+    for y in ys:
+        # only the yield that follows the application (inside the operand loops)
+        row = y.value.id
+        defs = [n for n in own_nodes(m.node) if isinstance(n, ast.Assign) and any(isinstance(t, ast.Name) and t.id == row for t in n.targets)]
+        if not defs or row in ("sources",):
+            continue
+        cfg_y.append((y, row))
+    if not cfg_y:
+        raise AnalysisError("Comparator._evaluate__: emitted row not found")
+    for y, row in cfg_y:
+        writes = []
+        for n in own_nodes(m.node):
+            if isinstance(n, ast.Call) and call_attr(n) == "update" and isinstance(n.func.value, ast.Name) and n.func.value.id == row:
+                writes.append((n.lineno, unparse(n.args[0]) if n.args else ""))
+            elif isinstance(n, ast.Assign) and any(isinstance(t, ast.Name) and t.id == row for t in n.targets):
+                v = n.value
+                if isinstance(v, ast.Dict):
+                    for k, vv in zip(v.keys, v.values):
+                        if k is None:
+                            writes.append((n.lineno, unparse(vv)))
+                else:
+                    writes.append((n.lineno, unparse(v)))
+        writes.sort()
+        names = [w for _, w in writes]
+        ok = mapname in names and names.index(mapname) == max(i for i, w in enumerate(names) if w)  # last merge
+        out.append(inst("OPERAND-IN-ROW", HOLDS if ok else VIOLATION, m, f"Comparator._evaluate__[row {row}]",
+                        f"the row is built from {names}: the compared operand values are written last" if ok else
+                        f"the row is built from {names} and the compared operand values (`{mapname}`) are not written over it: "
+                        f"an operand whose own row re-binds other variables (concatenate aggregates every binding it sees into "
+                        f"lists) replaces the value of the other operand in the emitted row", line=y.lineno))
+    return out
